@@ -120,13 +120,20 @@ def gen_no_escape(src, FN):
             return super().find_handler(name, recv)
     def self_id(st): return Val.a(to_val(st.env['exc']))
     def h_for(ex, s, st, k, K):
+        if isinstance(s.iter, ast.Call): ex.ev(s.iter, st.fork(), lambda s2, v: None, {'exc': lambda s2, x: None})          # the iterable's own call-site obligations (the iteration itself is arbitrary)
         it = st.fork(); it.env = dict(it.env)
         tgt = s.target.id; it.env[tgt] = fresh(tgt)
         K2 = dict(K); K2['cont'] = lambda s3: None
         ex.block(s.body, it, lambda s3: None, K2)          # arbitrary iteration; loops here modify only locals (safe_exc_args.append)
         return k(st.fork())
+    def h_itermro(ex_, st, e, recv, args, kw, k, K):
+        # find_pickleable_exception: the candidates are the classes of the exception's MRO STARTING WITH ITS OWN CLASS - a fresh instance of the same class built
+        # from the same args is the first (and best) candidate: it keeps the original class when only the instance, not the class, is unpicklable
+        if st.ghost.get('__fname') == 'find_pickleable_exception' and 'exc' in st.env and is_expr(st.env['exc']):
+            oblige(st, "find_pickleable_exception/pre@_itermro: the search starts at the exception's own class (exc.__class__), not at a base class  [C19]", to_val(args[0]) == st.heap.field('__class__')[self_id(st)])
+        return k(st, fresh('mro'))
     H = {'repr': h_repr, 'str': h_str, 'type': h_pure('type'), 'traceback.format_stack': h_pure('stack'), 'isinstance': h_isinstance, 'coder.loads': h_coder, 'coder.dumps': h_pure('dumped') if False else h_coder,
-         'supercls': h_supercls, 'getattr': h_pure('attr'), 'tuple': h_pure('tuple'), '_itermro': h_pure('mro'), 'id': h_id, 'cls': h_pure('wrapper'), '*.with_traceback': h_pure('res'),
+         'supercls': h_supercls, 'getattr': h_pure('attr'), 'tuple': h_pure('tuple'), '_itermro': h_itermro, 'id': h_id, 'cls': h_pure('wrapper'), '*.with_traceback': h_pure('res'),
          'SEEN_EXCEPTIONS_CACHE.add': h_seen_add, 'SEEN_EXCEPTIONS_CACHE.discard': h_seen_discard, 'SEEN_EXCEPTIONS_CACHE.clear': h_seen_clear,
          'ExceptionRepr': h_pure('exception_repr'), '@for': h_for,
          # modular: callee contracts
